@@ -1,6 +1,7 @@
 package main
 
 import (
+	"math"
 	"golang.org/x/tools/go/ssa"
 	"crypto/sha1"
 	"crypto/sha256"
@@ -600,7 +601,12 @@ func init() {
 	intrinsics["(*strings.Builder).WriteString"] = func(in *Interp, fr *frame, args []Value) Value {
 		s := args[1].(Str)
 		if s.Opaque {
-			panic(engineAbort{"strings.Builder.WriteString of opaque string"})
+			// the builder's content becomes unmodelled: remember it and make String() opaque
+			if in.opaqueBuilders == nil {
+				in.opaqueBuilders = map[*Value]bool{}
+			}
+			in.opaqueBuilders[bufOf(args[0])] = true
+			return Tuple{in.mkInt(0), Iface{}}
 		}
 		appendBytes(in, args[0], in.strBytes(s))
 		return Tuple{in.mkInt(int64(s.Len())), Iface{}}
@@ -624,6 +630,9 @@ func init() {
 		return Tuple{in.mkInt(int64(len(bs))), Iface{}}
 	}
 	intrinsics["(*strings.Builder).String"] = func(in *Interp, fr *frame, args []Value) Value {
+		if in.opaqueBuilders[bufOf(args[0])] {
+			return opaqueStr()
+		}
 		cur := (*bufOf(args[0])).(Slice)
 		bs := make([]*Term, len(cur.A))
 		for i, c := range cur.A {
@@ -889,4 +898,37 @@ func (in *Interp) globalErr(fr *frame, pkgPath, name string) Value {
 		}
 	}
 	panic(engineAbort{"global " + pkgPath + "." + name + " not found"})
+}
+
+// ---- math: rounding functions on float64
+func init() {
+	rnd := func(mode string, trunc bool) intrinsic {
+		return func(in *Interp, fr *frame, args []Value) Value {
+			x := args[0].(*Term)
+			if x.S.K == KReal {
+				if mode != "RNA" && mode != "RTZ" {
+					panic(engineAbort{"real-abstraction: unsupported rounding function"})
+				}
+				return in.tb.FP("to_real", SReal, in.realToInt(x, trunc))
+			}
+			if x.IsConst() {
+				f := math.Float64frombits(x.C)
+				switch mode {
+				case "RNA":
+					return in.fpConst(math.Round(f))
+				case "RTZ":
+					return in.fpConst(math.Trunc(f))
+				case "RTN":
+					return in.fpConst(math.Floor(f))
+				case "RTP":
+					return in.fpConst(math.Ceil(f))
+				}
+			}
+			return in.tb.FP("fp.roundToIntegral "+mode, SFP, x)
+		}
+	}
+	intrinsics["math.Round"] = rnd("RNA", false)
+	intrinsics["math.Trunc"] = rnd("RTZ", true)
+	intrinsics["math.Floor"] = rnd("RTN", true)
+	intrinsics["math.Ceil"] = rnd("RTP", true)
 }
